@@ -5,6 +5,8 @@ import "strings"
 func init() {
 	registerProp(&propSpec{ID: "C15", Patterns: []string{"./machine"}})
 	registerProp(&propSpec{ID: "C16", Patterns: []string{"./machine"}})
+	registerProp(&propSpec{ID: "C02", Patterns: []string{".", "./internal/coq", "./cmd/goose"}, Setup: translatorSetup})
+	registerProp(&propSpec{ID: "C07", Patterns: []string{".", "./internal/coq", "./cmd/goose"}, Setup: translatorSetup, Sweep: sweepContracts("C07")})
 	registerProp(&propSpec{ID: "C09", Patterns: []string{"./machine/disk", "./machine/async_disk"}})
 	registerProp(&propSpec{ID: "C10", Patterns: []string{"./machine/disk"}, Filter: lockFilter})
 	registerProp(&propSpec{ID: "C11", Patterns: []string{"./machine/disk"}})
